@@ -2163,3 +2163,201 @@ Example ex_leafcopy_ok :
           (f_files (writeout ex_leafcopy (page_tree [] ex_leafcopy)))
   = Some (Copy [s "assets"; s "deep"; s ".keep"]).
 Proof. repeat split; try reflexivity. intros H. vm_compute in H. discriminate. Qed.
+
+(* ------------------------------------------------------------------------------------------ *)
+(* nothing else is copied: every byte copy below <output>/page is accounted for by the Spec *)
+Lemma in_v_files_inv f vs : In f (v_files vs) -> In (VFile f) vs.
+Proof.
+  unfold v_files. intros H. apply in_flat_map in H as (v & Hv & H).
+  destruct v as [| |x|g]; simpl in H; try contradiction. destruct H as [<-|[]]. exact Hv.
+Qed.
+
+Lemma copy_items_intro es loc items item d sub p :
+  In item items -> find_entry item es = Some (Dir d sub) -> In p (all_files (Dir d sub)) ->
+  In (loc ++ p) (copy_items es loc true items).
+Proof.
+  intros Hi Hf Hp. unfold copy_items. apply in_flat_map. exists item. split; auto.
+  rewrite Hf. cbn [orb]. now apply in_map.
+Qed.
+
+(* what a node may copy *)
+Definition node_copies (root : list entry) (n : node) (p : list str) : Prop :=
+  (exists f, In f (n_files n) /\ p = n_loc n ++ [f]) \/
+  (exists item es' d sub p', In item (n_copy n) /\ dir_at (n_loc n) root = Some es' /\
+     find_entry item es' = Some (Dir d sub) /\ In p' (all_files (Dir d sub)) /\ p = n_loc n ++ p').
+
+Definition may_copy_at (proj : list str) (root : list entry) (e : entry) : Prop :=
+  forall d es, e = Dir d es -> forall pc loc,
+    wf_tree e = true -> dir_at loc root = Some es ->
+    forall n p, In n (res_nodes (gpt proj pc loc e)) -> node_copies root n p ->
+                In p (spec_may_copy proj loc e).
+
+Lemma spec_may_copy_dir proj loc d es :
+  spec_may_copy proj loc (Dir d es) =
+  match titled_index es with
+  | None => []
+  | Some (_, cp) =>
+    map (fun x => loc ++ [ename x]) (filter plain_file es)
+      ++ copy_items es loc true (eff_copy proj cp)
+      ++ flat_map (fun x => match x with
+                            | File n true _ cpx =>
+                              if md_name n && negb (str_eqb n idx)
+                              then copy_items es loc true (eff_copy proj cpx) else []
+                            | _ => []
+                            end) es
+      ++ flat_map (fun x => match x with
+                            | Dir n _ =>
+                              if visible n && negb (str_in n (eff_copy proj cp))
+                              then spec_may_copy proj (loc ++ [n]) x else []
+                            | File _ _ _ _ => []
+                            end) es
+  end.
+Proof. reflexivity. Qed.
+
+Lemma may_copy_all proj root e : may_copy_at proj root e.
+Proof.
+  induction e as [|d0 es0 IH] using entry_ind'; intros d es E pc loc Hwf Hroot nd0 p Hn Hc;
+    [discriminate|].
+  injection E as -> ->.
+  rewrite spec_may_copy_dir. rewrite gpt_dir in Hn.
+  destruct (titled_index es) as [[ord cp]|] eqn:TI; [|destruct Hn].
+  cbv zeta in Hn.
+  set (copy := eff_copy proj cp) in *.
+  set (sub := map (fun x => (ename x, gpt proj (Some copy) (loc ++ [ename x]) x)) es) in *.
+  set (M := merged (ordered_of ord) (listing es)) in *.
+  destruct (v_err (map (visit_name proj (Some copy) loc es sub) M)) eqn:VE; [destruct Hn|].
+  apply wf_dir in Hwf as [Hnd Hwf].
+  unfold res_nodes in Hn. rewrite preorder_node in Hn. destruct Hn as [<-|Hn].
+  - (* the index page of this directory *)
+    destruct Hc as [(f & Hf & ->)|(item & es' & d' & sb & p' & Hi & Hd & Hfe & Hp' & ->)];
+      cbn [n_files n_loc n_copy] in *.
+    + apply in_or_app. left.
+      apply in_v_files_inv, in_map_iff in Hf as (nm & Hv & Hnm).
+      destruct (visible nm) eqn:Hvis.
+      2:{ destruct (visit_name_invis proj (Some copy) loc es sub nm Hvis) as [X|X]; congruence. }
+      rewrite visit_name_vis in Hv by auto.
+      destruct (find_entry nm es) as [x|] eqn:FE; [|discriminate].
+      pose proof (find_entry_name _ _ _ FE) as [En Hin].
+      destruct x as [g t o c|dn des]; simpl in En; subst.
+      * destruct (is_md nm) eqn:MD; [destruct t; discriminate|]. injection Hv as <-.
+        apply in_map_iff. exists (File nm t o c). split; auto. apply filter_In. split; auto.
+        simpl. rewrite Hvis, <- is_md_spec, MD. reflexivity.
+      * exfalso. simpl in Hv. destruct (str_in nm copy); [discriminate|].
+        destruct (assoc_get nm sub) as [[| |?]|]; discriminate.
+    + apply in_or_app. right. apply in_or_app. left.
+      rewrite Hroot in Hd. injection Hd as <-. eapply copy_items_intro; eauto.
+  - apply in_flat_map in Hn as (x & Hx & Hn).
+    apply in_v_subs_inv, in_map_iff in Hx as (nm & Hv & Hnm).
+    assert (Hni : nm <> idx).
+    { unfold M in Hnm. rewrite order_documented in Hnm by auto.
+      apply filter_In in Hnm as [_ Hnm]. unfold not_idx in Hnm.
+      apply negb_true_iff, str_eqb_neq in Hnm. congruence. }
+    destruct (visible nm) eqn:Hvis.
+    2:{ destruct (visit_name_invis proj (Some copy) loc es sub nm Hvis) as [X|X]; congruence. }
+    rewrite visit_name_vis in Hv by auto.
+    unfold sub in Hv. rewrite assoc_map_find in Hv.
+    destruct (find_entry nm es) as [y|] eqn:FE; [|discriminate].
+    pose proof (find_entry_name _ _ _ FE) as [En Hin].
+    destruct y as [g t o c|dn des]; simpl in En; subst.
+    + (* another page of this directory *)
+      destruct (is_md nm) eqn:MD; [|discriminate]. destruct t; [|discriminate].
+      injection Hv as <-. simpl in Hn. destruct Hn as [<-|[]].
+      destruct Hc as [(f & Hf & _)|(item & es' & d' & sb & p' & Hi & Hd & Hfe & Hp' & ->)];
+        [destruct Hf|]. cbn [leaf n_loc n_copy] in *.
+      apply in_or_app. right. apply in_or_app. right. apply in_or_app. left.
+      apply in_flat_map. exists (File nm true o c). split; auto.
+      rewrite (md_name_visible _ Hvis), MD.
+      assert (negb (str_eqb nm idx) = true) as -> by now apply negb_true_iff, str_eqb_neq.
+      cbn [andb]. rewrite Hroot in Hd. injection Hd as <-. eapply copy_items_intro; eauto.
+    + (* a sub-tree *)
+      simpl in Hv. destruct (str_in nm copy) eqn:Hcp; [discriminate|].
+      destruct (gpt proj (Some copy) (loc ++ [nm]) (Dir nm des)) as [| |ndx] eqn:G; try discriminate.
+      injection Hv as <-.
+      apply in_or_app. right. apply in_or_app. right. apply in_or_app. right.
+      apply in_flat_map. exists (Dir nm des). split; auto.
+      rewrite Hvis. fold copy. rewrite Hcp. cbn [negb andb].
+      rewrite Forall_forall in IH.
+      apply (IH _ Hin nm des eq_refl (Some copy) (loc ++ [nm]) (Hwf _ Hin)) with (n := nd0); auto.
+      * rewrite dir_at_app, Hroot. simpl. now rewrite FE.
+      * rewrite G. exact Hn.
+Qed.
+
+(* every byte copy that the write-out makes is a copy made by one of the written nodes *)
+Definition copies_justified (root : list entry) (ns : list node) (st : fs) : Prop :=
+  forall p q, In (p, Copy q) (f_files st) -> p = q /\ exists n, In n ns /\ node_copies root n p.
+
+Lemma write_node_justified root ns n st :
+  In n ns -> copies_justified root ns st -> copies_justified root ns (write_node root st n).
+Proof.
+  intros Hn J. unfold write_node.
+  set (st1 := if is_index_file (n_file n) then mkdir (n_loc n) st else st).
+  assert (J1 : copies_justified root ns st1).
+  { unfold st1. destruct (is_index_file _); auto. unfold mkdir. destruct (dir_exists _ _); auto. }
+  set (st2 := add_file (out_path n) (Page (src_path n)) st1).
+  assert (J2 : copies_justified root ns st2).
+  { intros p q [H|H]; [discriminate|]. now apply J1. }
+  assert (J3 : forall l, (forall item, In item l -> In item (n_copy n)) ->
+                 forall s0, copies_justified root ns s0 ->
+                 copies_justified root ns (fold_left (copy_item root (n_loc n)) l s0)).
+  { induction l as [|item l IHl]; intros Hl s0 J0; cbn [fold_left]; auto.
+    apply IHl; [intros; apply Hl; now right|].
+    unfold copy_item. destruct (dir_at (n_loc n) root) as [es'|] eqn:Hd; auto.
+    destruct (find_entry item es') as [[? ? ? ?|d sub]|] eqn:Hf; auto.
+    destruct (dir_exists (n_loc n ++ [item]) s0); auto.
+    intros p q H. cbn [f_files] in H. apply in_app_or in H as [H|H]; [|now apply J0].
+    apply in_rev, in_map_iff in H as (p' & E & Hp'). injection E as <- <-.
+    split; auto. exists n. split; auto. right.
+    exists item, es', d, sub, p'. repeat split; auto. apply Hl. now left. }
+  assert (J4 : forall l, (forall f, In f l -> In f (n_files n)) ->
+                 forall s0, copies_justified root ns s0 ->
+                 copies_justified root ns (fold_left (copy_file (n_loc n)) l s0)).
+  { induction l as [|f l IHl]; intros Hl s0 J0; cbn [fold_left]; auto.
+    apply IHl; [intros; apply Hl; now right|].
+    intros p q [H|H]; [|now apply J0]. injection H as <- <-.
+    split; auto. exists n. split; auto. left. exists f. split; auto. apply Hl. now left. }
+  apply J4; auto.
+Qed.
+
+Lemma write_nodes_justified root ns : forall l st,
+  (forall n, In n l -> In n ns) -> copies_justified root ns st ->
+  copies_justified root ns (write_nodes root l st).
+Proof.
+  induction l as [|n l IH]; intros st Hl J; unfold write_nodes; cbn [fold_left]; auto.
+  apply IH; [intros; apply Hl; now right|].
+  apply write_node_justified; auto. apply Hl. now left.
+Qed.
+
+Theorem nothing_else_copied proj es p q :
+  wf_tree (Dir [] es) = true ->
+  In (p, Copy q) (f_files (writeout es (page_tree proj es))) ->
+  p = q /\ In p (spec_may_copy proj [] (Dir [] es)).
+Proof.
+  intros Hwf H. unfold writeout in H.
+  destruct (write_nodes_justified es (res_nodes (page_tree proj es)) (res_nodes (page_tree proj es)) fs0
+              (fun n Hn => Hn) (fun p' q' (X : In (p', Copy q') []) => match X with end) p q H)
+    as (E & n & Hn & Hc).
+  split; auto.
+  exact (may_copy_all proj es (Dir [] es) [] es eq_refl None [] Hwf eq_refl n p Hn Hc).
+Qed.
+
+(* the list that governs a page: its own copy_subdir metadata when the key is present -- also with
+   an empty value ("copy nothing here") --, else the project's.  pages/t1/index.md opts out with a
+   bare `copy_subdir:` line under the project setting `copy_subdir: media`: t1/media stays a
+   sub-tree of pages and is not copied; t3 (no key) falls back to the project list *)
+Definition ex_override : list entry :=
+  [T_ "index.md";
+   Dir (s "t1") [File idx true [] [[]]; Dir (s "media") [T_ "index.md"; T_ "p.md"; File (s "x.png") false [] []]];
+   Dir (s "t3") [T_ "index.md"; Dir (s "media") [T_ "index.md"; File (s "y.png") false [] []]]].
+Example ex_override_ok :
+  wf_tree (Dir [] ex_override) = true /\
+  map snd (pages (page_tree [s "media"] ex_override)) =
+    [[s "index.html"]; [s "t1"; s "index.html"]; [s "t1"; s "media"; s "index.html"];
+     [s "t1"; s "media"; s "p.html"]; [s "t3"; s "index.html"]] /\
+  spec_may_copy [s "media"] [] (Dir [] ex_override) =
+    [[s "t1"; s "media"; s "x.png"]; [s "t3"; s "media"; s "index.md"]; [s "t3"; s "media"; s "y.png"]] /\
+  file_at [s "t1"; s "media"; s "index.md"]
+          (f_files (writeout ex_override (page_tree [s "media"] ex_override))) = None /\
+  file_at [s "t3"; s "media"; s "index.md"]
+          (f_files (writeout ex_override (page_tree [s "media"] ex_override)))
+  = Some (Copy [s "t3"; s "media"; s "index.md"]).
+Proof. repeat split; reflexivity. Qed.
